@@ -410,3 +410,8 @@ Lemma codepoint_domain_lemma : forall s, length s <> 1%nat -> exists e, codepoin
 Proof.
   intros [|x [|y r]] H; cbn [codepoint_of length] in *; try (eexists; reflexivity). congruence.
 Qed.
+
+Lemma codepoint_char_all : forall s,
+  (forall c, codepoint_of s = Ok c -> s = [c]) /\
+  (length s <> 1%nat -> exists e, codepoint_of s = Err e).
+Proof. intro s. split; [exact (codepoint_char_lemma s)|exact (codepoint_domain_lemma s)]. Qed.
